@@ -94,6 +94,7 @@ def run(item):
     res = Res()
     b, q, H, W, J = item['biort'], item['qshift'], item['h'], item['w'], item['J']
     X = torch.as_tensor(common.eye_batch((H, W)))
+    X = torch.cat([X, X.flip(0)], dim=1)              # two channels (channel 1 carries the basis in reverse order)
     P = H * W
     base_tags = ['odd_size'] if (H % 2 or W % 2) else []
     try:
